@@ -41,6 +41,8 @@ type ctx struct {
 	rootDetGlobals map[*ssa.Global]bool
 	pure           map[*ssa.Function]bool
 	tupleMemo      map[string][]kind
+	curArgConst    []constant.Value // constant arguments of the call analysed next (per parameter, nil: not constant)
+	curArgMinLen   []int64          // lower bounds on the lengths of its slice arguments, known at the call site
 	curFvElems     map[int][]elemFn // detector lists captured by the closure analysed next (combinators)
 	curTag         string           // ... and a tag that distinguishes that closure instance in the memo
 	tupleWhy       map[string][]string
@@ -60,20 +62,22 @@ type fnResult struct {
 }
 
 type analysis struct {
-	c        *ctx
-	f        *ssa.Function
-	fvK      []kind          // per free variable: the kind of the captured variable's content (nil: bound once at init, stable)
-	fnArgs   []*ssa.Function // per parameter: the function constant bound to a function-typed parameter in this context
-	argK     []kind
-	guess    map[*ssa.Phi]kind
-	kinds    map[ssa.Value]kind
-	changed  bool
-	tainted  map[*ssa.Phi]bool
-	sofSrc   map[ssa.Value]ssa.Value
-	why      []string
-	handover []string
-	resIdx   int // the result position being judged (tuple helpers)
-	fvElems  map[int][]elemFn
+	c         *ctx
+	f         *ssa.Function
+	fvK       []kind          // per free variable: the kind of the captured variable's content (nil: bound once at init, stable)
+	fnArgs    []*ssa.Function // per parameter: the function constant bound to a function-typed parameter in this context
+	argK      []kind
+	guess     map[*ssa.Phi]kind
+	kinds     map[ssa.Value]kind
+	changed   bool
+	tainted   map[*ssa.Phi]bool
+	sofSrc    map[ssa.Value]ssa.Value
+	why       []string
+	handover  []string
+	resIdx    int // the result position being judged (tuple helpers)
+	fvElems   map[int][]elemFn
+	argConst  []constant.Value
+	argMinLen []int64
 }
 
 func isBool(t types.Type) bool {
@@ -260,6 +264,9 @@ func (a *analysis) compute(v ssa.Value) kind {
 		xk, yk := at(x.X), at(x.Y)
 		if allStable(xk, yk) {
 			return kStable
+		}
+		if a.lenDecided(x, blk) {
+			return kStable // a length test already settled by what the caller knows: the same on both runs
 		}
 		switch x.Op {
 		case token.GTR, token.GEQ:
@@ -667,6 +674,23 @@ func (a *analysis) call(c *ssa.Call) kind {
 			fns[i] = g
 		}
 	}
+	// constants and known minimum lengths are part of the callee's context (hasAt(raw, 4, "ftyp") under len(raw) >= 12)
+	cs := make([]constant.Value, len(c.Call.Args))
+	ms := make([]int64, len(c.Call.Args))
+	anyCtx := false
+	for i, x := range c.Call.Args {
+		if k, ok := a.constVal(x); ok {
+			cs[i], anyCtx = k, true
+		}
+		if _, isSl := x.Type().Underlying().(*types.Slice); isSl {
+			if m := a.minLenAt(x, blk); m > 0 {
+				ms[i], anyCtx = m, true
+			}
+		}
+	}
+	if anyCtx {
+		a.c.curArgConst, a.c.curArgMinLen = cs, ms
+	}
 	r := a.c.analyseCtx(callee, ks, fns)
 	if len(r.handover) > 0 && !(len(c.Call.Args) > 0 && a.isUnmodifiedInput(c.Call.Args[0])) {
 		a.why = append(a.why, fmt.Sprintf("callee %s relies on a hand-over but is not given the unmodified header", callee.Name()))
@@ -782,6 +806,159 @@ func (c *ctx) closureOfGlobal(g *ssa.Global) *ssa.Function {
 		}
 	}
 	return nil
+}
+
+// constVal folds v to a constant: a literal, a conversion of one, a parameter
+// bound to a constant in this calling context, len of such a string, sums.
+func (a *analysis) constVal(v ssa.Value) (constant.Value, bool) {
+	switch x := v.(type) {
+	case *ssa.Const:
+		if x.Value != nil {
+			return x.Value, true
+		}
+	case *ssa.Parameter:
+		for i, p := range a.f.Params {
+			if p == x && i < len(a.argConst) && a.argConst[i] != nil {
+				return a.argConst[i], true
+			}
+		}
+	case *ssa.Convert:
+		if k, ok := a.constVal(x.X); ok && k.Kind() == constant.Int && isIntT(x.Type()) {
+			return k, true
+		}
+	case *ssa.Call:
+		if b, ok := x.Call.Value.(*ssa.Builtin); ok && b.Name() == "len" {
+			if k, ok := a.constVal(x.Call.Args[0]); ok && k.Kind() == constant.String {
+				return constant.MakeInt64(int64(len(constant.StringVal(k)))), true
+			}
+		}
+	case *ssa.BinOp:
+		if x.Op == token.ADD || x.Op == token.SUB {
+			l, ok1 := a.constVal(x.X)
+			r, ok2 := a.constVal(x.Y)
+			if ok1 && ok2 && l.Kind() == constant.Int && r.Kind() == constant.Int {
+				return constant.BinaryOp(l, x.Op, r), true
+			}
+		}
+	}
+	return nil, false
+}
+
+// minLenAt: a lower bound on len(v) that holds whenever block blk runs: from
+// the calling context (v a parameter) and from the length tests dominating blk.
+func (a *analysis) minLenAt(v ssa.Value, blk *ssa.BasicBlock) int64 {
+	var m int64
+	if p, ok := v.(*ssa.Parameter); ok {
+		for i, q := range a.f.Params {
+			if q == p && i < len(a.argMinLen) {
+				m = a.argMinLen[i]
+			}
+		}
+	}
+	for d := blk; d != nil; d = d.Idom() {
+		if len(d.Preds) != 1 {
+			continue
+		}
+		p := d.Preds[0]
+		iff, ok := p.Instrs[len(p.Instrs)-1].(*ssa.If)
+		if !ok || p.Succs[0] == p.Succs[1] {
+			continue
+		}
+		onTrue := p.Succs[0] == d
+		b, ok := iff.Cond.(*ssa.BinOp)
+		if !ok {
+			continue
+		}
+		lx, op, ky := b.X, b.Op, b.Y
+		if ln, isLen := ky.(*ssa.Call); isLen {
+			if bi, ok := ln.Call.Value.(*ssa.Builtin); ok && bi.Name() == "len" {
+				// K op len(v): mirror
+				lx, ky = b.Y, b.X
+				switch op {
+				case token.LSS:
+					op = token.GTR
+				case token.LEQ:
+					op = token.GEQ
+				case token.GTR:
+					op = token.LSS
+				case token.GEQ:
+					op = token.LEQ
+				}
+			}
+		}
+		ln, isLen := lx.(*ssa.Call)
+		if !isLen {
+			continue
+		}
+		if bi, ok := ln.Call.Value.(*ssa.Builtin); !ok || bi.Name() != "len" || ln.Call.Args[0] != v {
+			continue
+		}
+		kv, ok := a.constVal(ky)
+		if !ok || kv.Kind() != constant.Int {
+			continue
+		}
+		k, _ := constant.Int64Val(kv)
+		var lb int64 = -1
+		switch {
+		case op == token.GEQ && onTrue, op == token.LSS && !onTrue:
+			lb = k
+		case op == token.GTR && onTrue, op == token.LEQ && !onTrue:
+			lb = k + 1
+		case op == token.EQL && onTrue, op == token.NEQ && !onTrue:
+			lb = k
+		}
+		if lb > m {
+			m = lb
+		}
+	}
+	return m
+}
+
+// lenDecided: x compares len(s) with a constant K and the known lower bound on
+// len(s) already decides it (len >= K, len > K hold; len < K, len <= K fail).
+func (a *analysis) lenDecided(x *ssa.BinOp, blk *ssa.BasicBlock) bool {
+	lx, op, ky := x.X, x.Op, x.Y
+	isLenCall := func(v ssa.Value) (*ssa.Call, bool) {
+		c, ok := v.(*ssa.Call)
+		if !ok {
+			return nil, false
+		}
+		bi, ok := c.Call.Value.(*ssa.Builtin)
+		return c, ok && bi.Name() == "len"
+	}
+	if _, ok := isLenCall(ky); ok {
+		lx, ky = x.Y, x.X
+		switch op {
+		case token.LSS:
+			op = token.GTR
+		case token.LEQ:
+			op = token.GEQ
+		case token.GTR:
+			op = token.LSS
+		case token.GEQ:
+			op = token.LEQ
+		}
+	}
+	ln, ok := isLenCall(lx)
+	if !ok {
+		return false
+	}
+	kv, ok := a.constVal(ky)
+	if !ok || kv.Kind() != constant.Int {
+		return false
+	}
+	k, _ := constant.Int64Val(kv)
+	if blk == nil {
+		blk = x.Block()
+	}
+	m := a.minLenAt(ln.Call.Args[0], blk)
+	switch op {
+	case token.GEQ, token.LSS:
+		return m >= k
+	case token.GTR, token.LEQ:
+		return m > k
+	}
+	return false
 }
 
 // elemsOf: v is an element loaded from the list held in a captured variable of
@@ -1060,7 +1237,19 @@ func (c *ctx) analyseCtx(f *ssa.Function, argK []kind, fns []*ssa.Function) fnRe
 	c.curFvK = nil
 	fvElems, tag := c.curFvElems, c.curTag
 	c.curFvElems, c.curTag = nil, ""
+	argConst, argMinLen := c.curArgConst, c.curArgMinLen
+	c.curArgConst, c.curArgMinLen = nil, nil
 	key := f.String() + fmt.Sprint(argK) + fmt.Sprint(fvK) + tag
+	for i, k := range argConst {
+		if k != nil {
+			key += fmt.Sprintf("|c%d=%s", i, k.ExactString())
+		}
+	}
+	for i, m := range argMinLen {
+		if m > 0 {
+			key += fmt.Sprintf("|m%d=%d", i, m)
+		}
+	}
 	for i, g := range fns {
 		if g != nil {
 			key += fmt.Sprintf("|%d=%s", i, g.String())
@@ -1089,7 +1278,7 @@ func (c *ctx) analyseCtx(f *ssa.Function, argK []kind, fns []*ssa.Function) fnRe
 		c.memo[key] = res
 		return res
 	}
-	a := &analysis{c: c, f: f, argK: argK, fnArgs: fns, fvK: fvK, fvElems: fvElems, guess: map[*ssa.Phi]kind{}, tainted: map[*ssa.Phi]bool{}, sofSrc: map[ssa.Value]ssa.Value{}}
+	a := &analysis{c: c, f: f, argK: argK, fnArgs: fns, fvK: fvK, fvElems: fvElems, argConst: argConst, argMinLen: argMinLen, guess: map[*ssa.Phi]kind{}, tainted: map[*ssa.Phi]bool{}, sofSrc: map[ssa.Value]ssa.Value{}}
 	if !a.classify() {
 		// the phi classification did not reach a fixpoint: nothing may be concluded from the last guesses
 		res.ret = kTop
